@@ -47,6 +47,10 @@ fn normalise(dom: &mut WeakDom) -> Vec<Ref> {
                 if let Some(Variant::Content(_)) = i.properties.get(&key) {
                     i.properties.remove(&key);
                 }
+                // the model's second UniqueId-typed value follows the payload: positional as well
+                if key.as_str() == "HistoryId" {
+                    i.properties.insert(key, Variant::UniqueId(crate::dommodel::history_value(k as i32)));
+                }
             }
         }
     }
